@@ -9,23 +9,24 @@ from pystog import StoG
 KIND = {"S(Q)": 0, "Q[S(Q)-1]": 1, "FK(Q)": 2, "DCS(Q)": 3}
 
 
-def req_dataset(rid, case, d):
+def req_dataset(rid, case, d, entry="Stog.datasetRows"):
     args = [case["qmin"], case["qmax"], case["bcoh"], case["btot"], d["x"], d["y"], d.get("dy"), d.get("Qmin"), d.get("Qmax"),
             1.0 if "Y" in d else 0.0, 1.0 if "X" in d else 0.0, d.get("Y", {}).get("Scale"), d.get("Y", {}).get("Offset"),
             d.get("X", {}).get("Offset"), float(KIND[d.get("ReciprocalFunction", "S(Q)")])]
     args = [np.asarray(a, dtype=float) if isinstance(a, list) else a for a in args]
-    return proto.request(rid, "Stog.datasetRows", {}, args)
+    return proto.request(rid, entry, {}, args)
 
 
-def req_merge(rid, opts, sq):
+def req_merge(rid, opts, sq, entry="Stog.mergeData"):
     args = [opts.get("aS"), opts.get("bS"), opts.get("cF"), opts.get("dF"), sq[0], sq[1], sq[2]]
-    return proto.request(rid, "Stog.mergeData", {}, args)
+    return proto.request(rid, entry, {}, args)
 
 
 def run(seed, tier, gen, merged_opts_of=None, n=None, tag="stogcorr"):
     n = n or (60 if tier == "quick" else 600)
     lines, expect = [], {}
-    dist = {"datasets": 0, "merges": 0, "kinds": {}}
+    gen_ok = set(proto.gen_entries())     # twin requests to the Float reading of the code generated from stog.py
+    dist = {"datasets": 0, "merges": 0, "kinds": {}, "generated_code_twins": 0}
     samples = []
     for i in range(n):
         case = gen(rng_for(seed, tag, i), i, tier)
@@ -44,6 +45,10 @@ def run(seed, tier, gen, merged_opts_of=None, n=None, tag="stogcorr"):
                 rid = f"ds{i}.{k}"
                 lines.append(req_dataset(rid, case, d))
                 expect[rid] = [s.reciprocal_individuals[j][n0:].copy() for j in range(3)] + [s.sq_individuals[j][n0:].copy() for j in range(3)]
+                if "GenStog.datasetRows" in gen_ok:
+                    lines.append(req_dataset("g" + rid, case, d, entry="GenStog.datasetRows"))
+                    expect["g" + rid] = expect[rid]
+                    dist["generated_code_twins"] += 1
                 dist["datasets"] += 1
                 kd = d.get("ReciprocalFunction", "S(Q)")
                 dist["kinds"][kd] = dist["kinds"].get(kd, 0) + 1
@@ -55,6 +60,10 @@ def run(seed, tier, gen, merged_opts_of=None, n=None, tag="stogcorr"):
                 lines.append(req_merge(rid, mo[1] if mo else {}, before))
                 expect[rid] = [s.sq_individuals[0], s.sq_individuals[1], s.sq_individuals[2], s.q_master[s.sq_title],
                                s.sq_master[s.sq_title], s.sq_master[s.qsq_minus_one_title]]
+                if "GenStog.mergeData" in gen_ok:
+                    lines.append(req_merge("g" + rid, mo[1] if mo else {}, before, entry="GenStog.mergeData"))
+                    expect["g" + rid] = expect[rid]
+                    dist["generated_code_twins"] += 1
                 dist["merges"] += 1
         except KeyError:
             continue
